@@ -12,6 +12,7 @@ import DrummerVerif.Lemmas.Quiet
 import DrummerVerif.Lemmas.C01H
 import DrummerVerif.Lemmas.C01E
 import DrummerVerif.Lemmas.C01P
+import DrummerVerif.Lemmas.Cadence
 /-!
 # C01 — self-healing: the control loop restores every shard after faults stop (PARTIAL: safety invariants and per-round progress lemmas; the convergence bound is decided by the correspondence run, see DESIGN.md)
 
@@ -550,6 +551,20 @@ theorem first_report_records_the_logs :
           Loop.report l a lost = Outcome.ok (l', n) →
             ∃ spec, hostFind? l'.db.hosts a = some spec ∧ spec.tick = l.db.tick ∧ HostSpec.hasLog spec s rid = true :=
   @_root_.Drummer.first_report_records_the_logs
+
+/-- **the quiet window** - the timing premise discharged for bounded windows: `DB.Fresh d s` says every member record
+carries a positive report time at most `s` old; `WindowStep` is a fault-free event (tick, report, execution, catch-up,
+scheduling round with NO premise) indexed by the number of ticks it contains. From a settled state that is `Fresh s`, any
+sequence of such events containing `k` ticks with `s + k * tickInterval ≤ nodeHostTTL` is a quiet run: every round finds
+every member healthy and issues nothing, the fleet stays settled. (Reports renew the window: a report stamps the members
+its NodeHost runs with the current time, `running_member_is_recorded_as_reported_now`.) -/
+theorem quiet_window :
+    ∀ (l l' : Loop) (k s : Nat), Loop.Settled l → 0 < l.db.tick → DB.Fresh l.db s →
+      s + k * tickInterval ≤ nodeHostTTL → l.db.tick + k * tickInterval < 18446744073709551616 →
+        WindowSteps l l' k →
+          QuietSteps l l' ∧ Loop.Settled l' ∧ DB.Fresh l'.db (s + k * tickInterval) ∧ 0 < l'.db.tick ∧
+            l'.db.tick ≤ l.db.tick + k * tickInterval :=
+  @_root_.Drummer.quiet_window
 
 end C01
 end Drummer
